@@ -196,6 +196,16 @@ def r162(ctx, ut):
                             if a and isinstance(a[0], ast.BinOp) and isinstance(a[0].op, binop) and _is_float_of(a[0].left, 'self') \
                                     and _is_float_of(a[0].right, other) and (unit is None or unparse(unit) == f'{var}._baseunit'):
                                 ok_named = True
+            # the same without a variable for the looked-up class: table[type(other)](value, table[type(other)]._baseunit)
+            for r in walk_shallow(fn):
+                if isinstance(r, ast.Return) and isinstance(r.value, ast.Call) and isinstance(r.value.func, ast.Subscript) \
+                        and isinstance(r.value.func.value, ast.Attribute) and r.value.func.value.attr == table and unparse(r.value.func.slice) == f'type({other})':
+                    a = r.value.args
+                    kw = {k.arg: k.value for k in r.value.keywords}
+                    unit = a[1] if len(a) > 1 else kw.get('unit')
+                    if a and isinstance(a[0], ast.BinOp) and isinstance(a[0].op, binop) and _is_float_of(a[0].left, 'self') \
+                            and _is_float_of(a[0].right, other) and (unit is None or unparse(unit) == f'{unparse(r.value.func)}._baseunit'):
+                        ok_named = True
             if not ok_named:
                 problems.append((fn, f'{meth}: named result is not built as newclass(float(self) {binop.__name__} float({other}), newclass._baseunit) '
                                      f'with newclass = type(self).{table}[type({other})]'))
